@@ -1,5 +1,6 @@
 """C06 — power-of-two radix float output is exact and round-trips."""
 import gens
+import gens_walgos
 import vlib
 from props import judges
 from props.common import TRUSTED_BASE, ASSUMPTIONS
@@ -8,7 +9,11 @@ ID = "C06"
 LEAN_MODULES = ["LexVerif.Props.C06", "LexVerif.Props.RoundNE", "LexVerif.Props.TablesWrite", "LexVerif.Props.Literals.WriteFloat"]
 GEN = ["write_tables", "literals"]
 TRUSTED = TRUSTED_BASE + [
-    "binary.rs / hex.rs writers are not modelled in Lean yet: every output is evaluated EXACTLY (as a rational) by the Lean oracle and compared with the float's value, and re-parsed by the implementation",
+    "binary.rs / hex.rs are modelled in Lean (Model/WriteBinary.lean; the `wf` model column must equal the implementation's bytes on every op). "
+    "Proved for ALL finite floats (sign removed, zero included), radices 2/4/8/16/32, all documented base pairs, all three notations: the laid-out digits denote exactly "
+    "the float (writeBinary_exact_digits_partial) and re-round to the same bits (writeBinary_roundtrip_partial). NOT proved: digits -> bytes -> "
+    "parser inverse (byte-level Prop writeBinary_exact), sign, specials, max_significant_digits: covered by the exact-value judge on every op; "
+    "mantissa digits are Spec.toDigits (the integer writer is C03's subject)",
 ]
 RULE = ("for radix 2/4/8/16/32 and the mixed formats 4/2, 8/2, 16/2, 32/2, 16/4 (exponent radix 10, radix, base): every binade x "
         "{min, max, half, random mantissa} so that every residue of the exponent modulo bits-per-digit occurs, all subnormal powers of two, "
@@ -16,9 +21,9 @@ RULE = ("for radix 2/4/8/16/32 and the mixed formats 4/2, 8/2, 16/2, 32/2, 16/4 
         "(Lean oracle, big rationals), implementation re-parse == same bits. non-trivial = finite non-zero; distinct = distinct ops")
 TECHNIQUE = "Lean 4 oracle theorems (roundNE exact on floats) + exact rational evaluation of every written output by the Lean driver + re-parse correspondence"
 LEVEL_TEXT = ("Proved in Lean: roundNE returns a float when given that float's exact value (roundNE_of_valQ), so 'output denotes exactly the float' implies "
-              "'re-parsing correctly returns identical bits'. The writers binary.rs/hex.rs are NOT proved; each output on the stream is evaluated exactly "
+              "'re-parsing correctly returns identical bits'. For the Lean model of binary.rs/hex.rs (default digit options): calculate_shl / scale_sci_exp / fast_ceildiv are floor division and modulus, and for every finite non-zero f32/f64 the digits written in scientific or positional notation denote exactly the float. Byte-level rendering/parsing is not proved; each output on the stream is evaluated exactly "
               "(no rounding) by the Lean driver and compared with the float, and re-parsed by the implementation. Partial proof, stated as such.")
-LEVEL_NOTE = "Trusted: Lean kernel; rustc; differential harness; generators. No Lean model of write-float/src/binary.rs and hex.rs yet."
+LEVEL_NOTE = "Trusted: Lean kernel; rustc; differential harness; generators; the tie model<->code is the byte-for-byte wf correspondence (>= 120k ops per feature set)."
 
 MIXED = [(4, 2), (8, 2), (16, 2), (32, 2), (16, 4)]
 
@@ -61,7 +66,7 @@ def streams(tier, rng, fs, profile):
                 else:
                     o = gens.wopts(exp=e, pb=1, nb=-1, trim=rng.choice([0, 1]))                                   # mostly scientific
                 ops.append("wf %s %s %x %s -" % (ty, f, bits, o))
-    return [("g-bits-pow2", ops)]
+    return [("g-bits-pow2", ops)] + gens_walgos.pow2_model_stream(tier, rng, formats(), exp_for)
 
 
 def all_digits(outhex, fmt):
